@@ -175,6 +175,26 @@ def _component(value, i):
     return _component_cache[k]
 
 
+# fields holding plain values (dates, durations, class labels): a temporary stored into one of them can be named by the field afterwards
+SCALAR_FIELDS = {"arrival_date", "exit_date", "service_start_date", "service_end_date", "reneging_date", "class_change_date", "next_end_service_date",
+                 "date_last_update", "original_service_start_date", "service_time", "time_left", "original_service_time", "priority_class",
+                 "prev_priority_class", "customer_class", "previous_class", "next_class", "original_class", "next_event_date", "next_event_type"}
+
+
+def _pure_predicate(expr):
+    """a comparison / boolean combination / isinf / isinstance test over access paths and constants (no other calls)"""
+    if not (isinstance(expr, (ast.Compare, ast.BoolOp)) or (isinstance(expr, ast.UnaryOp) and isinstance(expr.op, ast.Not)) or
+            (isinstance(expr, ast.Call) and isinstance(expr.func, ast.Name) and expr.func.id in ("isinf", "isinstance"))):
+        return False
+    for x in ast.walk(expr):
+        if isinstance(x, ast.Call):
+            if not (isinstance(x.func, ast.Name) and x.func.id in ("isinf", "isinstance", "float")):
+                return False
+        if isinstance(x, (ast.Lambda, ast.ListComp, ast.GeneratorExp, ast.DictComp, ast.SetComp, ast.IfExp, ast.NamedExpr, ast.Await, ast.Yield)):
+            return False
+    return True
+
+
 def _copy_expr(n):
     return ast.parse(ast.unparse(n), mode="eval").body
 
@@ -360,6 +380,8 @@ class Walker:
             k = ("call", id(expr), frame.fid)
             if env.get(k) is not None:
                 return env[k]
+        if _pure_predicate(expr):
+            return self.canon(expr, frame, env)       # a boolean temporary: named by the predicate it holds (dropped when an operand is written)
         return None
 
     # ---- statements ------------------------------------------------------------------------------
@@ -531,7 +553,20 @@ class Walker:
         tc = self.canon(tgt, frame, s.env)
         ev = Event("assign", st, frame, target=tc, value=vc, alias=av, local=False, value_node=value, target_node=tgt)
         s = self.emit(s, ev)
-        return self.kill(s, tc, frame, tgt)
+        s = self.kill(s, tc, frame, tgt)
+        if isinstance(value, ast.Name) and isinstance(tgt, ast.Attribute) and value.id in getattr(frame, "_locals", ()) and not component:
+            # `x.f = tmp`: from here on tmp and x.f hold the same value; name the local by the field it was stored into (until either is written)
+            cur = s.env.get((frame.fid, value.id))
+            params = {a.arg for a in frame.func.args.args}
+            # only temporaries holding a looked-up value (`tmp = table[key]`), never parameters or locals that name an object
+            scalar = tgt.attr in SCALAR_FIELDS
+            stable = isinstance(cur, str) and re.fullmatch(r"self(\.\w+)+", cur) is not None      # self.now, self.simulation.current_time, ...: a better name already
+            if value.id not in params and ((cur is None and scalar) or (isinstance(cur, str) and not stable and ("[" in cur or "(" in cur or scalar)
+                                                                         and not cur.startswith(("'", '"')) and not re.fullmatch(r"True|False|None|-?[\d.]+|float\('inf'\)", cur))):
+                env = dict(s.env)
+                env[(frame.fid, value.id)] = tc
+                s = s.fork(env=env)
+        return s
 
     def kill(self, s, tc, frame, tgt_node):
         """A write to access path tc: stale aliases become opaque, facts mentioning it are dropped."""
@@ -648,6 +683,16 @@ class Walker:
                 if m and not self.view.is_property(m.group(1)):
                     return self.view.resolve(m.group(1))
             return None
+        if (isinstance(f, ast.Call) and isinstance(f.func, ast.Name) and f.func.id == "getattr" and len(f.args) == 2 and not f.keywords
+                and isinstance(f.args[0], ast.Name) and f.args[0].id == "self" and env is not None and frame.cls is not None):
+            # getattr(self, name)() with `name` a local holding a string constant on this path
+            nm = f.args[1]
+            v = repr(nm.value) if isinstance(nm, ast.Constant) else env.get((frame.fid, nm.id)) if isinstance(nm, ast.Name) else None
+            if isinstance(v, str):
+                m = re.fullmatch(r"'(\w+)'|\"(\w+)\"", v)
+                if m and not self.view.is_property(m.group(1) or m.group(2)):
+                    return self.view.resolve(m.group(1) or m.group(2))
+            return None
         if isinstance(f, ast.Attribute):
             if isinstance(f.value, ast.Name) and f.value.id == "self":
                 if frame.cls is None:
@@ -665,7 +710,7 @@ class Walker:
         args = [self.canon(a, frame, s.env) for a in call.args]
         kw = {k.arg: self.canon(k.value, frame, s.env) for k in call.keywords if k.arg}
         target = self.resolve_self_call(call, frame, s.env)
-        if target is not None and isinstance(f, ast.Name):
+        if target is not None and isinstance(f, (ast.Name, ast.Call)):
             meth, recv = target[1].name, "self"
         elif isinstance(f, ast.Name) and s.env.get((frame.fid, f.id)):
             al = s.env[(frame.fid, f.id)]
@@ -757,6 +802,12 @@ class Walker:
         """a bound method `self.m` (a local aliased to it, after canonicalisation) is neither None nor false"""
         extra = None
         for a in guards.atoms(f):
+            if a[0] in ("isnone", "truth") and isinstance(a[1], str) and re.fullmatch(r"'[^']+'|\"[^\"]+\"", a[1]) and a not in facts:
+                # a non-empty string constant (a local holding one, after canonicalisation)
+                if extra is None:
+                    extra = dict(facts)
+                extra[a] = (a[0] == "truth")
+                continue
             if a[0] in ("isnone", "truth") and isinstance(a[1], str) and a[1].startswith("self.") and a[1][5:].isidentifier() and a not in facts:
                 m = a[1][5:]
                 if self.view is not None and self.view.resolve(m) is not None and not self.view.is_property(m):
@@ -832,7 +883,7 @@ class Walker:
             if it in self.loop_iters:
                 # leave the loop after `it` iterations
                 for s in cur:
-                    out.append(self.emit(s, Event("loopexit", st, frame, it=it, iters=it)))
+                    out.append(self.emit(s, Event("loopexit", st, frame, it=it, iters=it, iter=self.canon(st.iter, frame, s.env))))
             if it == maxit:
                 break
             nxt = []
@@ -847,7 +898,7 @@ class Walker:
                 if s.status in ("normal", "continue"):
                     cur.append(s.fork(status="normal"))
                 elif s.status == "break":
-                    out.append(self.emit(s.fork(status="normal"), Event("loopexit", st, frame, it=-1, iters=it + 1)))
+                    out.append(self.emit(s.fork(status="normal"), Event("loopexit", st, frame, it=-1, iters=it + 1, iter=self.canon(st.iter, frame, s.env))))
                 else:
                     out.append(s)
             cur = self.dedupe(cur)
@@ -887,7 +938,7 @@ class Walker:
                 if s.status in ("normal", "continue"):
                     cur.append(s.fork(status="normal"))
                 elif s.status == "break":
-                    out.append(self.emit(s.fork(status="normal"), Event("loopexit", st, frame, it=-1, iters=it + 1)))
+                    out.append(self.emit(s.fork(status="normal"), Event("loopexit", st, frame, it=-1, iters=it + 1, iter=self.canon(st.iter, frame, s.env))))
                 else:
                     out.append(s)
             cur = self.dedupe(cur)
